@@ -21,6 +21,8 @@ def plan(tier):
         {"kind": "c04", "cfg": lc.cfg(d=2, t=0), "count": n // 2, "maxops": mo},
         {"kind": "c04", "cfg": lc.cfg(d=1, t=0), "count": n // 4, "maxops": mo},
         {"kind": "c04", "cfg": lc.cfg(d=3, t=0), "count": n // 4, "maxops": mo},
+        {"kind": "c04", "cfg": lc.cfg(d=2, t=2), "count": n // 4, "maxops": mo},
+        {"kind": "c04", "cfg": lc.cfg(d=2, t=3), "count": n // 6, "maxops": mo},
     ]
 
 
